@@ -37,7 +37,11 @@ CHECKS = {
     ),
     "C07": dict(
         title="DHCPv4 encoding is deterministic, canonical and readable by any RFC decoder",
-        stages=[dict(name="enc", shards=S16, timeout={"quick": 600, "thorough": 3000})],
+        stages=[dict(name="enc", shards=S16, timeout={"quick": 600, "thorough": 3000}),
+                dict(name="conc", run="TestConc", shards={"quick": 2, "thorough": 4}, timeout={"quick": 600, "thorough": 3000}),
+                dict(name="concrace", run="TestConc", race=True, shards={"quick": 2, "thorough": 4}, timeout={"quick": 600, "thorough": 3000}, env={"VERIF_SAMPLE": "8"})],
+        race_is_violation=True,
+        min_counters=["conc.cases", "reencoded_after_edit"],
         rule="(a) generated packets of the C01 domain, each encoded 4 times (Go randomises map iteration per call); (b) option sets of 2..6 options: ALL permutations of the same updates "
              "(UpdateOption / WithGeneric modifier / add-delete-re-add styles interleaved), 7..12 options: 200 sampled orders. Shape = sorted code classes + split pattern (+ permutation size); "
              "non-trivial iff >= 3 options or option 82 present or a value > 255 bytes.",
